@@ -109,6 +109,34 @@ class Index:
                 self._subclasses.setdefault(b.qual, []).append(c)
         for m in self.modules.values():
             self._find_proxies(m)
+        self.absorbed: set[str] = self._absorbed()
+
+    def _absorbed(self) -> set[str]:
+        """helpers that are new relative to the baseline inventory and were inlined into every caller
+        (no call by that name is left in any normal form): their statements are read in the callers,
+        so they are not sites of their own"""
+        nz = self.repo.normaliser
+        inlined = {x.split('::', 1)[1].split(' -> ')[0] for x in nz.inlined}
+        if not inlined:
+            return set()
+        cands = {}
+        for q, f in self.functions.items():
+            local = (f.cls.qual.rsplit('.', 1)[-1] + '.' if f.cls is not None else '') + f.node.name
+            if f.node.name in inlined and nz.is_new(f.rel, local):
+                cands[q] = f
+        if not cands:
+            return set()
+        called: set[str] = set()
+        for q, f in self.functions.items():
+            for n in ast.walk(f.node):
+                if isinstance(n, ast.Call):
+                    fn = n.func
+                    nm = fn.attr if isinstance(fn, ast.Attribute) else (fn.id if isinstance(fn, ast.Name) else None)
+                    if nm and not (q in cands and nm == f.node.name):
+                        called.add(nm)
+                elif isinstance(n, ast.Attribute) and not isinstance(getattr(n, '_parent', None), ast.Call):
+                    called.add(n.attr)              # method value passed around
+        return {q for q, f in cands.items() if f.node.name not in called}
 
     # ---- loading ---------------------------------------------------------
     def _load(self, rel: str) -> None:
